@@ -120,7 +120,7 @@ class M2Spec(object):
     """What an M2 contract hands to the executor."""
 
     def __init__(self, hooks=None, pure=(), stable_fields=(), noreturn=(), on_store=None, inline=(),
-                 on_exit=None, on_yield=None):
+                 on_exit=None, on_yield=None, props_as_fields=(), on_continue=None):
         self.hooks = hooks or {}            # callee simple name -> handler(ex, recv, args, kwargs, st, fr, node) -> outcomes | None
         self.pure = set(pure)               # callee simple names that are pure functions of their arguments (assumed)
         self.stable_fields = set(stable_fields)
@@ -129,6 +129,10 @@ class M2Spec(object):
         self.inline = set(inline)           # qualified names executed from real source
         self.on_exit = on_exit
         self.on_yield = on_yield
+        # names of side-effect free @property getters of `self` that are read like fields: the value is
+        # materialised in the heap on first read and stays until a callee that may store that name havocs it
+        self.props_as_fields = set(props_as_fields)
+        self.on_continue = on_continue      # hook(ex, st, fr, node) at every `continue` statement
 
 
 class M2Executor(Executor):
@@ -141,6 +145,27 @@ class M2Executor(Executor):
         self.lenient = []        # constructs evaluated as opaque (reported in evidence)
         self.prune = True
 
+    def feasible(self, st, extra=None):
+        """opt-in (`opts={'ground_feasible': True}`): path pruning decided in the same ground theory as the
+        m2 obligations (embedding facts only, no sequence axioms) -- a path is dropped only on a definite,
+        early `unsat`; much faster than the quantified pre-check and never less sound."""
+        if not self.opts.get('ground_feasible'):
+            return Executor.feasible(self, st, extra)
+        if not self.prune:
+            return True
+        from .values import val_axioms
+        pc = st.pc + ([extra] if extra is not None else [])
+        s = z3.Solver()
+        s.set('timeout', 2000)
+        for a in val_axioms(pc):
+            s.add(a)
+        for a in pc:
+            s.add(a)
+        import time as _t
+        t0 = _t.time()
+        r = s.check()
+        return not (r == z3.unsat and _t.time() - t0 < 1.2)
+
     # -------------------------------------------------- expressions: lenient
     def eval(self, node, st, fr):
         try:
@@ -148,6 +173,27 @@ class M2Executor(Executor):
         except Unsupported as e:
             self.lenient.append('%s@L%s: %s' % (type(node).__name__, getattr(node, 'lineno', '?'), str(e)[:80]))
             return [Outcome('normal', st, fresh_opaque('expr'))]
+
+    def _pure_boolop(self, node, st, fr):
+        """The non-forking and/or route evaluates operands in a scratch copy of the state: effects of hooked
+        callees (ghost, events) and lazily materialised fields of `self` would be lost there.  Operands with a
+        hooked call take the forking route; fields are materialised in `st` first so that the term in the
+        path condition is the one later reads see."""
+        for n in ast.walk(node):
+            if isinstance(n, ast.Call) and self._callee_name(n) in self.spec.hooks:
+                return None
+        for n in ast.walk(node):
+            if isinstance(n, ast.Attribute) and isinstance(n.ctx, ast.Load) and isinstance(n.value, ast.Name):
+                o = st.env.get(n.value.id)
+                if isinstance(o, VObj) and (o.oid, n.attr) not in st.heap:
+                    cls = o.cls
+                    is_cls_attr = inspect.isclass(cls) and any(n.attr in k.__dict__ for k in cls.__mro__)
+                    if not is_cls_attr or n.attr in getattr(self.spec, 'props_as_fields', ()):
+                        try:
+                            self.getattr_(o, n.attr, st, fr, n)
+                        except Unsupported:
+                            pass
+        return Executor._pure_boolop(self, node, st, fr)
 
     def e_Dict(self, node, st, fr):
         return [Outcome('normal', st, fresh_opaque('dict'))]
@@ -179,6 +225,11 @@ class M2Executor(Executor):
         if isinstance(v, VNone):
             return Executor.getattr_(self, v, name, st, fr, node)
         if isinstance(v, VObj):
+            if name in getattr(self.spec, 'props_as_fields', ()):
+                key = (v.oid, name)
+                if key not in st.heap:
+                    st.heap[key] = fresh_opaque('fld_' + name)
+                return [Outcome('normal', st, st.heap[key])]
             return Executor.getattr_(self, v, name, st, fr, node)
         return [Outcome('normal', st, fresh_opaque('attr_' + name))]
 
@@ -227,6 +278,35 @@ class M2Executor(Executor):
             return Executor.assign_subscript(self, tgt, val, st, fr)
         except Unsupported:
             return [Outcome('normal', st)]
+
+    def s_AugAssign(self, node, st, fr):
+        """opt-in (`opts={'list_concat': True}`): `name += <opaque>` on a literal list keeps the literal's
+        elements as membership facts: the new value is v_binop_Add(L, rhs) with v_in(e, L) for every element e
+        of the literal (instead of havocking `name`)."""
+        if self.opts.get('list_concat') and isinstance(node.target, ast.Name) and isinstance(node.op, ast.Add) \
+                and isinstance(st.env.get(node.target.id), VList):
+            cur = st.env[node.target.id]
+            try:
+                items = [to_val(i) for i in cur.items]
+            except Unsupported:
+                items = None
+            if items is not None:
+                res = []
+                for o in self.eval(node.value, st, fr):
+                    if o.kind != 'normal':
+                        res.append(o)
+                        continue
+                    if not isinstance(o.val, VOpaque):
+                        return Executor.s_AugAssign(self, node, st, fr)
+                    lit = fresh_opaque('listlit')
+                    vin = z3.Function('v_in', smt.Val, smt.Val, smt.B)
+                    for it in items:
+                        o.st.assume(vin(it, lit.t))
+                    add = z3.Function('v_binop_Add', smt.Val, smt.Val, smt.Val)
+                    o.st.env[node.target.id] = VOpaque(add(lit.t, o.val.t))
+                    res.append(Outcome('normal', o.st))
+                return res
+        return Executor.s_AugAssign(self, node, st, fr)
 
     def iter_items(self, v, st):
         try:
@@ -649,6 +729,12 @@ class M2Executor(Executor):
                                 gens.add(n.name)
             M2Executor.GENERATOR_NAMES = gens
         return name in M2Executor.GENERATOR_NAMES
+
+    def s_Continue(self, node, st, fr):
+        h = getattr(self.spec, 'on_continue', None)
+        if h is not None:
+            h(self, st, fr, node)
+        return Executor.s_Continue(self, node, st, fr)
 
     # statements outside the subset
     def s_Global(self, node, st, fr):
